@@ -724,12 +724,26 @@ func (k *walker) custom() {
 		k.pos = payEnd
 		return
 	}
-	for !k.bad && k.pos < payEnd {
+	// The budget of bytes is kept the way a sequential decoder keeps it: the declared
+	// subsection size is subtracted after the content was read content-driven, in
+	// unsigned arithmetic, so a subsection that overshoots makes the budget wrap and the
+	// rest of the input is read as name subsections too.
+	limit := uint64(payEnd - k.pos)
+	if k.pos > payEnd {
+		k.bad = true
+		return
+	}
+	for !k.bad && limit > 0 {
+		if k.pos >= k.end {
+			return // end of input where a subsection id is expected: the section ends
+		}
 		id := k.byteSite(kNameSubID)
+		szAt := k.pos
 		sz := k.u32(kNameSubSize)
 		if k.bad {
 			return
 		}
+		limit -= 1 + uint64(k.pos-szAt) + uint64(sz)
 		si := len(k.w.Sites) - 1
 		subEnd := k.pos + int(sz)
 		if uint64(k.pos)+uint64(sz) > uint64(k.end) {
